@@ -95,6 +95,7 @@ MUTANTS = [
     ("C10", "align-evict-early", "typhon/files/fileset.py", "                if not secondary_usage[secondary_file]:\n                    del cache[secondary_file]", "                if secondary_usage[secondary_file] <= 1:\n                    cache.pop(secondary_file, None)"),
     ("C10", "e2w-always", "typhon/files/fileset.py", "            except Exception as e:\n                if error_to_warning:\n                    msg = f\"[ERROR] Could not read the file(s):", "            except Exception as e:\n                if True:\n                    msg = f\"[ERROR] Could not read the file(s):"),
     ("C10", "collect-keeps-none-drops-order", "typhon/files/fileset.py", "        results = self.map(**map_args)\n\n        # Tell the python interpreter explicitly to free up memory to improve\n        # performance (see https://stackoverflow.com/q/1316767/9144990):\n        gc.collect()", "        results = self.map(**map_args)[::-1]\n\n        gc.collect()"),
+    ("C11", "renamed-zip-unreadable", "typhon/files/utils.py", "        if filebase not in members and len(members) == 1:\n            filebase = members[0]\n", "        pass\n"),
     ("C11", "bound-reader-loses-read-args", "typhon/files/handlers/common.py", "            number_args = 1\n            if len(signature(self.reader).parameters) > number_args:", "            number_args = 1 + int(ismethod(self.reader))\n            if len(signature(self.reader).parameters) > number_args:"),
     ("C11", "write-args-not-merged", "typhon/files/fileset.py", "        write_args = {**self.write_args, **write_args}", "        write_args = {**write_args}"),
     ("C11", "target-times-reversed", "typhon/files/fileset.py", "        new_filename = destination.get_filename(\n            file_info.times, fill=file_info.attr\n        )\n\n        # Shall we simply move", "        new_filename = destination.get_filename(\n            (file_info.times[0], file_info.times[0]), fill=file_info.attr\n        )\n\n        # Shall we simply move"),
